@@ -195,6 +195,75 @@ fn check_history(ci: usize, case: &Value) -> Option<Value> {
     }
 }
 
+/// A walk of arrivals through the repeated hour of this zone (where the clocks are set back and the same wall-clock
+/// readings come twice): whatever the schedule is there, the trigger fires on the first record at or after the
+/// scheduled *instant* - not when the wall clock reading has caught up with the schedule's - and reschedules strictly
+/// into the future (TimeTrigger.tla, Trigger: `now` and `next` are instants).
+fn check_overlap_walk() -> Vec<Value> {
+    use chrono::LocalResult;
+    let mut out = vec![];
+    // the first set-back of the zone after 2024-01-01
+    let mut first_pass: Option<DateTime<Local>> = None;
+    let mut day = chrono::NaiveDate::from_ymd_opt(2024, 1, 1).unwrap();
+    'scan: for _ in 0..800 {
+        for h in 0..24 {
+            for m in [0u32, 30] {
+                if let LocalResult::Ambiguous(a, b) = Local.from_local_datetime(&day.and_hms_opt(h, m, 0).unwrap()) {
+                    first_pass = Some(a.min(b)); // the earlier of the two instants that read this wall-clock time
+                    break 'scan;
+                }
+            }
+        }
+        day = day.succ_opt().unwrap();
+    }
+    let start = match first_pass {
+        Some(t) => t,
+        None => return out, // no set-back in this zone
+    };
+    for (n, unit) in [(1i64, "hour"), (30, "minute"), (45, "minutes"), (7, "minute"), (90, "seconds"), (2, "hours")] {
+        for modulate in [false, true] {
+            let scratch = Scratch::new("walk");
+            let path = scratch.path().join("t.log");
+            let rolls = Arc::new(AtomicUsize::new(0));
+            let r = catch(|| -> Option<Value> {
+                let mut now = start + chrono::Duration::minutes(3);
+                log4rs::verif::set_now(Some(now));
+                let tc: TimeTriggerConfig = serde_yaml::from_str(&format!("interval: {} {}\nmodulate: {}\n", n, unit, modulate)).expect("trigger config");
+                let trig = Arc::new(TimeTrigger::new(tc));
+                let policy = CompoundPolicy::new(Box::new(SharedTrigger(trig.clone())), Box::new(CountingRoller(rolls.clone())));
+                let a = RollingFileAppender::builder().encoder(Box::new(log4rs::encode::pattern::PatternEncoder::new("{m}{n}"))).build(&path, Box::new(policy)).expect("appender");
+                for step in 0..60 {
+                    now = now + chrono::Duration::seconds(if step % 3 == 0 { 211 } else { 97 });
+                    log4rs::verif::set_now(Some(now));
+                    let scheduled = trig.verif_scheduled();
+                    let before = rolls.load(Ordering::SeqCst);
+                    if let Err(e) = log4rs::append::Append::append(&a, &log::Record::builder().level(log::Level::Info).args(format_args!("r{}", step)).build()) {
+                        return Some(json!({"what": "append failed in the repeated hour", "error": e.to_string()}));
+                    }
+                    let fired = rolls.load(Ordering::SeqCst) - before;
+                    let want = now >= scheduled;
+                    if (fired == 1) != want || fired > 1 {
+                        return Some(json!({"what": "trigger fired / did not fire against its scheduled instant (repeated hour)", "interval": format!("{} {}", n, unit),
+                                           "modulate": modulate, "now": now.to_rfc3339(), "scheduled": scheduled.to_rfc3339(), "expected_fire": want, "rolls_during_append": fired}));
+                    }
+                    let next = trig.verif_scheduled();
+                    if next <= now {
+                        return Some(json!({"what": "scheduled instant is not strictly in the future (repeated hour)", "now": now.to_rfc3339(), "scheduled": next.to_rfc3339()}));
+                    }
+                }
+                None
+            });
+            log4rs::verif::set_now(None);
+            match r {
+                Ok(Some(m)) => out.push(m),
+                Ok(None) => {}
+                Err(p) => out.push(json!({"what": "panic while walking through the repeated hour", "error": p})),
+            }
+        }
+    }
+    out
+}
+
 /// max_random_delay: the schedule lies in [boundary, boundary + max)
 fn check_delay(idx: usize, case: &Value) -> Option<Value> {
     let t = *locals(&case["now"]).first()?;
@@ -248,6 +317,12 @@ pub fn main(args: &[String]) {
         }
         m.into_iter().map(|m| json!({"case": i, "zone": zone, "input": c, "mismatch": m})).collect()
     });
+    let mut res = res;
+    if !fixed {
+        for m in check_overlap_walk() {
+            res.push(json!({"case": -1, "zone": zone, "input": {"kind": "walk through the repeated hour"}, "mismatch": m}));
+        }
+    }
     write_ndjson(&args[1], &res);
     println!("{}", json!({"cases": rows.len(), "mismatches": res.len(), "nonexistent_local_times": skipped.load(Ordering::Relaxed),
                           "offset_changed_only_strict": weak.load(Ordering::Relaxed)}));
